@@ -1357,3 +1357,574 @@ def run_driver_parallel(exe, queries, jobs=4, timeout=1200):
     chunks = [queries[i:i + k] for i in range(0, len(queries), k)]
     with ThreadPoolExecutor(jobs) as ex:
         return [a for r in ex.map(lambda ch: run_driver(exe, ch, timeout), chunks) for a in r]
+
+
+# ------------------------------------------------------------------------------------------ third round of seeded changes (DESIGN 9.10)
+def chords_unblocked(drv, polys, route, offs):
+    """refinement of the classifier of the known finding degenerate_chord (F-b): every offending (segment, shape) pair is a degenerate
+    chord AND the code's own per-shape test, as proved (C03_unblocked_char / C03_blocked_by_shape_eq_spec: the extracted spec_shapeBlocks =
+    blocked_by_shape = the cpp2v translation of newBlockingShape's loop), does NOT block it, i.e. fewer than two end-point touches.  A
+    chord with both ends on the shape's border (two touches) is blocked by the unchanged code, so a route along it is not the known finding."""
+    if not offs or offs == [(-1, -1, 0)] or not all(o[2] == 1 for o in offs):
+        return False
+    qs = []
+    for (seg, shp, dg) in offs:
+        if seg + 1 >= len(route) or shp >= len(polys):
+            return False
+        qs.append('BLK %s %s %s' % (tok_poly(polys[shp]), tok_pt(route[seg]), tok_pt(route[seg + 1])))
+    return all(a.split()[0] == '0' for a in run_driver(drv, qs))
+
+
+def block_harness():
+    return build_harness_retry('c03_block', ['libavoid'], 'exc')
+
+
+def _border_points(P, rng, k=2):
+    """points on the border of polygon P with coordinates that are multiples of 1/2: vertices, edge midpoints, other lattice points of the edges"""
+    pts = []
+    n = len(P)
+    for i in range(n):
+        a, b = P[i], P[(i + 1) % n]
+        pts.append((a, 'v'))
+        pts.append((((a[0] + b[0]) / 2.0, (a[1] + b[1]) / 2.0), 'm'))
+        g = math.gcd(abs(b[0] - a[0]), abs(b[1] - a[1]))
+        if g > 2:
+            j = rng.range(1, g - 1)
+            pts.append(((a[0] + (b[0] - a[0]) // g * j, a[1] + (b[1] - a[1]) // g * j), 'e'))
+    return pts
+
+
+def gen_block_queries(rng, n):
+    """(polygon, e1, e2, tag) inputs for the per-shape blocking loops, aimed at the case split of blocked_char: 0 / 1 / 2 end-point touches spread
+    over different polygon edges, touches at vertices, both ends on one edge, collinear overlaps with an edge, chords through vertices from
+    outside, proper crossings.  Coordinates are small integers or half-integers (exact in binary64 and in Q)."""
+    out = []
+    while len(out) < n:
+        x0, y0 = 2 * rng.range(-6, 6), 2 * rng.range(-6, 6)
+        P = poly_in_box(rng, (x0, y0, x0 + 2 * rng.range(2, 7), y0 + 2 * rng.range(2, 7)), rng.choice([0, 0, 5, 6, 7, 9, 9]))
+        P = [tuple(p) for p in P]
+        bp = _border_points(P, rng)
+        b = bbox(P)
+
+        def outside():
+            return (rng.range(b[0] - 6, b[2] + 6), rng.range(b[1] - 6, b[3] + 6))
+        kind = rng.below(10)
+        if kind <= 2:
+            (p, t1), (q, t2) = rng.choice(bp), rng.choice(bp)          # both ends on the border
+            tag = 'border-border:%s%s' % (t1, t2)
+        elif kind == 3:
+            (p, t1) = rng.choice(bp); q = outside(); tag = 'border-any:' + t1
+        elif kind == 4:
+            # collinear with an edge: both ends on the edge's line
+            i = rng.below(len(P)); a, c = P[i], P[(i + 1) % len(P)]
+            k1, k2 = rng.range(-3, 5), rng.range(-3, 5)
+            p = (a[0] + (c[0] - a[0]) * k1 / 2.0, a[1] + (c[1] - a[1]) * k1 / 2.0); q = (a[0] + (c[0] - a[0]) * k2 / 2.0, a[1] + (c[1] - a[1]) * k2 / 2.0)
+            tag = 'collinear'
+        elif kind == 5:
+            # through two vertices, ends beyond them (the degenerate chord of F-b) or exactly on them
+            a, c = rng.choice(P), rng.choice(P)
+            k1, k2 = rng.choice([0, 0, 1, 2]), rng.choice([0, 0, 1, 2])
+            p = (a[0] - (c[0] - a[0]) * k1 / 2.0, a[1] - (c[1] - a[1]) * k1 / 2.0); q = (c[0] + (c[0] - a[0]) * k2 / 2.0, c[1] + (c[1] - a[1]) * k2 / 2.0)
+            tag = 'vertex-line'
+        elif kind == 6:
+            # from a border point through a vertex
+            (p, t1) = rng.choice(bp); c = rng.choice(P)
+            k2 = rng.choice([0, 1, 2, 4])
+            q = (c[0] + (c[0] - p[0]) * k2 / 2.0, c[1] + (c[1] - p[1]) * k2 / 2.0)
+            tag = 'border-through-vertex:' + t1
+        else:
+            p, q = outside(), outside(); tag = 'any-any'
+        if p == q:
+            continue
+        p, q = (float(p[0]), float(p[1])), (float(q[0]), float(q[1]))
+        if rng.chance(1, 3) and p[0] == int(p[0]) and p[1] == int(p[1]):
+            # a first shape that the end p touches once (p in the middle of one of its sides): firstBlocker must reset the flag between shapes
+            px, py = int(p[0]), int(p[1])
+            w, h = rng.range(1, 4), rng.range(1, 4)
+            D = rng.choice([(px - w, py - 2 * h, px + w, py), (px - w, py, px + w, py + 2 * h), (px - 2 * w, py - h, px, py + h), (px, py - h, px + 2 * w, py + h)])
+            out.append((P, p, q, tag + '+first', rect_poly(D)))
+        else:
+            out.append((P, p, q, tag))
+    return out
+
+
+def small_block_sweep():
+    """exhaustive: three small polygons, every ordered pair of distinct points of a 7 x 7 lattice round them"""
+    polys = [[(4, 0), (4, 4), (0, 4), (0, 0)], [(4, 0), (2, 4), (0, 0)], [(4, 1), (4, 3), (3, 4), (1, 4), (0, 3), (0, 1), (1, 0), (3, 0)]]
+    pts = [(float(x), float(y)) for x in range(-1, 6) for y in range(-1, 6)]
+    return [(P, p, q, 'sweep') for P in polys for p in pts for q in pts if p != q]
+
+
+def run_block_harness(exe, queries, timeout=600):
+    """-> list of (firstBlocker_blocked, newBlockingShape_blocked) or ('EXC', text)"""
+    lines = [('B %s %s %s %s %s' % (fmt_poly(t[0]), repr(t[1][0]), repr(t[1][1]), repr(t[2][0]), repr(t[2][1]))) if len(t) == 4 else
+             ('D %s %s %s %s %s %s' % (fmt_poly(t[4]), fmt_poly(t[0]), repr(t[1][0]), repr(t[1][1]), repr(t[2][0]), repr(t[2][1]))) for t in queries]
+    rc, out, err, dt = C.sh([exe], input='\n'.join(lines) + '\n', timeout=timeout)
+    res = []
+    for line in out.split('\n'):
+        t = line.split()
+        if not t:
+            continue
+        if t[0] == 'B':
+            res.append((int(t[1]), int(t[2])))
+        elif t[0] == 'EXC':
+            res.append(('EXC', line[4:]))
+    if rc != 0 or len(res) != len(queries):
+        raise RuntimeError('c03_block harness failed rc=%s answers=%d/%d %s' % (rc, len(res), len(queries), err[-400:]))
+    return res
+
+
+def _xf(sym, sc, off, p):
+    a, b, c, d = sym
+    return (sc * (a * p[0] + b * p[1]) + off[0], sc * (c * p[0] + d * p[1]) + off[1])
+
+
+def _xf_rect(sym, sc, off, bx):
+    p, q = _xf(sym, sc, off, (bx[0], bx[1])), _xf(sym, sc, off, (bx[2], bx[3]))
+    return rect_poly((min(p[0], q[0]), min(p[1], q[1]), max(p[0], q[0]), max(p[1], q[1])))
+
+
+def gen_wedged_history(rng, rect_only=True, R=40):
+    """-> (ops, tags).  Three mutually touching rectangles: a tall shape X wedged between A (touching X's one long side) and B (touching the
+    other), such that the segment from a corner of A to a corner of B is a chord through X's interior with BOTH ends on X's border (two
+    end-point touches, no proper crossing: blocked only by the `second touch` rule of segmentShapeIntersect) and tangent to A and B at
+    those corners; a connector whose taut route would run along that chord.  What varies is WHEN X becomes active relative to the A-B
+    visibility edge: X has the largest / smallest id of one transaction, is added in a later transaction, is moved into the gap
+    (relative or absolute move) or grown into it; 8 symmetries, scales 1-10, optional far shapes and a later endpoint nudge."""
+    sym = rng.choice(SYMS); sc = rng.choice([1, 1, 2, 3, 5, 10]); off = (rng.range(-20, 60), rng.range(-20, 60))
+    W = rng.range(3, 30); H1 = rng.range(15, 60); H2 = rng.range(15, 60)
+    aw, bw = rng.range(2, 20), rng.range(2, 20)
+    drop = rng.range(1, 12)
+    ah, bh = rng.range(2, 8), rng.range(2, 8)
+    ay1 = rng.range(-H1 + ah + drop + bh + 2, H2 - 2) if H2 - 2 >= -H1 + ah + drop + bh + 2 else 0
+    ay0 = ay1 - ah
+    by0 = ay1 - drop; by1 = by0 + bh
+    if by1 >= H2 or ay0 <= -H1 or by0 <= -H1:
+        return None, []
+    Xb, Ab, Bb = (0, -H1, W, H2), (-aw, ay0, 0, ay1), (W, by0, W + bw, by1)
+    # s above-left of A's top-right corner (0, ay1), d below-right of B's bottom-left corner (W, by0)
+    s = (-aw - rng.range(0, 12), ay1 + rng.range(1, 5)); d = (W + bw + rng.range(0, 12), by0 - rng.range(1, 5))
+    if rng.chance(1, 4):
+        s = (-rng.range(1, aw + 8), ay1 + rng.range(1, 9)); d = (W + rng.range(1, bw + 8), by0 - rng.range(1, 9))
+    cA, cB = (0, ay1), (W, by0)
+    taut = cross(s, cA, cB) < 0 and cross(cA, cB, d) > 0
+    if not taut and rng.chance(3, 4):
+        return None, []
+    T = lambda b: _xf_rect(sym, sc, off, b)
+    PX, PA, PB = T(Xb), T(Ab), T(Bb)
+    sp, dp = _xf(sym, sc, off, s), _xf(sym, sc, off, d)
+    if rng.chance(1, 2):
+        sp, dp = dp, sp
+    kind = rng.choice(['last_id', 'last_id', 'later', 'later', 'move_in_rel', 'move_in_abs', 'grow', 'first_id'])
+    ids = {'last_id': (1, 2, 3), 'first_id': (2, 3, 1)}.get(kind, rng.choice([(1, 2, 3), (2, 3, 1), (1, 3, 2), (3, 1, 2)]))
+    iA, iB, iX = ids
+    ops, tags = [], [kind, 'taut' if taut else 'slack']
+    far = []
+    for k in range(rng.range(0, 2)):
+        fx, fy = rng.range(40, 70) * rng.choice([-1, 1]), rng.range(-60, 60)
+        far.append(T((fx, fy, fx + rng.range(2, 9), fy + rng.range(2, 9))))
+    first = [('A', iA, PA), ('A', iB, PB)] + [('A', 10 + k, P) for k, P in enumerate(far)]
+    if kind in ('last_id', 'first_id'):
+        first.append(('A', iX, PX))
+        first = rng.shuffle(first)             # creation order differs from id order; the router activates shapes in id order
+        ops += first + [('C', 100, sp, dp), ('P',)]
+    elif kind == 'later':
+        ops += rng.shuffle(first) + [('C', 100, sp, dp), ('P',), ('A', iX, PX), ('P',)]
+    elif kind in ('move_in_rel', 'move_in_abs'):
+        mv = (rng.range(35, 90) * rng.choice([-1, 1]), 0) if rng.chance(1, 2) else (0, (H1 + H2 + rng.range(5, 40)) * rng.choice([-1, 1]))
+        a, b, c, dd = sym
+        mvx = (sc * (a * mv[0] + b * mv[1]), sc * (c * mv[0] + dd * mv[1]))
+        Pfar = [(x + mvx[0], y + mvx[1]) for x, y in PX]
+        ops += rng.shuffle(first + [('A', iX, Pfar)]) + [('C', 100, sp, dp), ('P',)]
+        ops += [('M', iX, -mvx[0], -mvx[1]) if kind == 'move_in_rel' else ('T', iX, PX), ('P',)]
+    else:
+        # grow: X starts narrower, touching neither (or only one) neighbour
+        l = rng.range(0, W - 1); r = rng.range(l + 1, W)
+        if (l, r) == (0, W):
+            l = 1 if W > 1 else 0
+        ops += rng.shuffle(first + [('A', iX, T((l, -H1, r, H2)))]) + [('C', 100, sp, dp), ('P',), ('T', iX, PX), ('P',)]
+    if rng.chance(1, 3):
+        e = rng.below(2)
+        p = (sp, dp)[e]
+        ops += [('E', 100, e, (p[0] + rng.range(-1, 1), p[1] + rng.range(-1, 1))), ('P',)]
+    # endpoints must be in free space (outside every closed shape) at every dump
+    shapes, conns = {}, {}
+    for o in ops:
+        if o[0] == 'P':
+            for (a_, b_) in conns.values():
+                if a_ == b_ or any(inside_closed(Pg, a_) or inside_closed(Pg, b_) for Pg in shapes.values()):
+                    return None, []
+        else:
+            shapes, conns = hist_apply(shapes, conns, o)
+    return ops, tags
+
+
+def pocket_open_state(shapes, p, region):
+    """'open' (the integer point p reaches the border of `region` through free unit cells: an opening at least 1 wide), 'closed' (not even along
+    zero-width seams between touching shapes) or 'seam' (only along such seams: exact geometry says routable, a router working with closed
+    obstacles does not - outside the generated domain).  Integer shapes; doubled coordinates so that lattice points, edge midpoints and cell
+    centres are all integer."""
+    X0, Y0, X1, Y1 = [2 * c for c in region]
+    blocked = set()
+    for P in shapes.values():
+        P2 = [(2 * x, 2 * y) for x, y in P]
+        b = bbox(P2)
+        isrect = len(P) == 4 and sorted(P2) == sorted(rect_poly(b))
+        for X in range(max(b[0] + 1, X0), min(b[2], X1 + 1)):
+            for Y in range(max(b[1] + 1, Y0), min(b[3], Y1 + 1)):
+                if isrect or inside_strict(P2, (X, Y)):
+                    blocked.add((X, Y))
+
+    def bfs(start, step):
+        seen, todo = {start}, [start]
+        while todo:
+            x, y = todo.pop()
+            if x <= X0 or x >= X1 or y <= Y0 or y >= Y1:
+                return True
+            for dx, dy in ((1, 0), (-1, 0), (0, 1), (0, -1)):
+                m = (x + dx, y + dy); n = (x + 2 * dx, y + 2 * dy)
+                if n not in seen and m not in blocked and n not in blocked:
+                    seen.add(n); todo.append(n)
+        return False
+    if bfs((2 * p[0] + 1, 2 * p[1] + 1), 2):
+        return 'open'
+    return 'seam' if bfs((2 * p[0], 2 * p[1]), 2) else 'closed'
+
+
+def gen_pocket_history(rng, rect_only=False, R=40):
+    """-> (ops, tags).  "Unroutable, then routable": one endpoint of a connector lies in a pocket enclosed by 3-4 OVERLAPPING walls (box4: four
+    rectangles overlapping at the corners; tri3, polyline only: two rectangles and a diagonal quadrilateral), so that no route exists and the router
+    emits the straight line; a later transaction opens the pocket by deleting a wall, moving it away (relative move), shrinking it (absolute move
+    to a shorter wall) or sliding it along; optional transactions while the pocket is still closed (something else changes), optional re-closing
+    and opening of a different wall.  Walls overlap each other, all other shapes keep their distance; endpoints are never on or in a shape."""
+    tags = []
+    x0, y0 = rng.range(5, 30), rng.range(5, 30)
+    iw, ih = rng.range(5, 14), rng.range(5, 14)
+    x1, y1 = x0 + iw, y0 + ih
+    t = rng.range(2, 6); e = rng.range(0, 4)
+    kind = 'box4' if rect_only or rng.chance(2, 3) else 'tri3'
+    walls = {}
+    if kind == 'box4':
+        walls[1] = rect_poly((x0 - t - e, y0 - t, x1 + t + e, y0))          # low  y side
+        walls[2] = rect_poly((x0 - t - e, y1, x1 + t + e, y1 + t))          # high y side
+        walls[3] = rect_poly((x0 - t, y0 - t - e, x0, y1 + t + e))          # low  x side
+        walls[4] = rect_poly((x1, y0 - t - e, x1 + t, y1 + t + e))          # high x side
+        inner = [(x, y) for x in range(x0 + 1, x1) for y in range(y0 + 1, y1)]
+    else:
+        walls[1] = rect_poly((x0 - t - e, y0 - t, x1 + t + e, y0))
+        walls[3] = rect_poly((x0 - t, y0 - t - e, x0, y1 + t + e))
+        w = rng.range(3, 8)
+        Q = [(x0 - t, y1), (x1, y0 - t), (x1 + w, y0 - t), (x0 - t, y1 + w)]
+        Q = Q if convex_ccw(Q) else Q[::-1]
+        if not convex_ccw(Q):
+            return None, []
+        walls[2] = Q
+        inner = [(x, y) for x in range(x0 + 1, x1) for y in range(y0 + 1, y1) if not inside_closed(Q, (x, y)) and cross(Q[0], Q[1], (x, y)) != 0
+                 and all(abs(cross(a, b, (x, y))) >= max(abs(b[0] - a[0]), abs(b[1] - a[1])) for a, b in edges(Q))]
+    if not inner:
+        return None, []
+    tags.append(kind)
+    H = _Hist(rng, rect_only, R)
+    ops = []
+    shapes = {}
+    order = rng.shuffle(sorted(walls))
+    idmap = {}
+    ids = rng.shuffle([1, 2, 3, 4, 5, 6])[:len(walls)]
+    for wname, i in zip(order, ids):
+        idmap[wname] = i
+        shapes[i] = walls[wname]
+        ops.append(('A', i, walls[wname]))
+    wb = (x0 - t - e - 1, y0 - t - e - 1, x1 + t + e + 9, y1 + t + e + 9)
+
+    def outside_point():
+        for _ in range(200):
+            p = (rng.range(wb[0] - 25, wb[2] + 25), rng.range(wb[1] - 25, wb[3] + 25))
+            if not (wb[0] <= p[0] <= wb[2] and wb[1] <= p[1] <= wb[3]) and not any(in_any_bbox([Pg], p) for Pg in shapes.values()):
+                return p
+        return None
+    # 0-2 shapes outside, away from the walls and from each other
+    nid = 7
+    for _ in range(rng.range(0, 2)):
+        for _ in range(30):
+            p = outside_point()
+            if p is None:
+                break
+            bx = (p[0], p[1], p[0] + rng.range(2, 8), p[1] + rng.range(2, 8))
+            if box_sep(bx, wb, 2) and all(box_sep(bx, bbox(shapes[j]), 2) for j in shapes if j >= 7):
+                Pn = rect_poly(bx) if rect_only or rng.chance(1, 2) else poly_in_box(rng, bx)
+                shapes[nid] = Pn; ops.append(('A', nid, Pn)); nid += 1
+                break
+    inp = rng.choice(inner)
+    outp = outside_point()
+    if outp is None:
+        return None, []
+    conns = {100: (outp, inp) if rng.chance(1, 2) else (inp, outp)}
+    ops.append(('C', 100, conns[100][0], conns[100][1]))
+    if rng.chance(1, 3):
+        q1, q2 = outside_point(), (rng.choice(inner) if rng.chance(1, 2) else outside_point())
+        if q1 and q2 and q1 != q2 and q2 != inp:
+            conns[101] = (q1, q2); ops.append(('C', 101, q1, q2)); tags.append('second_conn')
+    ops = rng.shuffle(ops[:len(ops) - len(conns)]) + ops[len(ops) - len(conns):]
+    ops.append(('P',))
+
+    def still_closed_change():
+        k = rng.below(3)
+        far = [j for j in shapes if j >= 7]
+        if k == 0 and far:
+            j = rng.choice(far)
+            for _ in range(20):
+                dx, dy = rng.range(-4, 4), rng.range(-4, 4)
+                nb = bbox([(x + dx, y + dy) for x, y in shapes[j]])
+                if (dx or dy) and box_sep(nb, wb, 2) and all(box_sep(nb, bbox(shapes[m]), 2) for m in far if m != j) and \
+                        not any(in_any_bbox([rect_poly(nb)], p) for c in conns.values() for p in c):
+                    ops.append(('M', j, dx, dy)); shapes[j] = [(x + dx, y + dy) for x, y in shapes[j]]
+                    return 'closed_move_far'
+        if k == 1:
+            p = outside_point()
+            which = 0 if conns[100][0] != inp else 1
+            if p is not None and p != conns[100][1 - which]:
+                ops.append(('E', 100, which, p)); conns[100] = (p, inp) if which == 0 else (inp, p)
+                return 'closed_move_outer_end'
+        if k == 2:
+            q = rng.choice(inner)
+            which = 0 if conns[100][0] == inp else 1
+            if q != inp and 101 not in conns:
+                ops.append(('E', 100, which, q)); conns[100] = (q, conns[100][1]) if which == 0 else (conns[100][0], q)
+                return 'closed_move_inner_end'
+        return None
+    if rng.chance(2, 5):
+        tg = still_closed_change()
+        if tg:
+            if tg == 'closed_move_inner_end':
+                inp = [p for p in conns[100] if p in inner][0]
+            tags.append(tg); ops.append(('P',))
+
+    def open_wall(wname):
+        i = idmap[wname]
+        P0 = shapes[i]
+        how = rng.choice(['delete', 'move_away', 'shrink', 'slide'])
+        if how == 'delete':
+            ops.append(('D', i)); del shapes[i]
+            return how, None
+        if how == 'move_away':
+            dx, dy = rng.choice([(0, 1), (0, -1), (1, 0), (-1, 0)])
+            m = rng.range(60, 120)
+            ops.append(('M', i, dx * m, dy * m)); shapes[i] = [(x + dx * m, y + dy * m) for x, y in P0]
+            return how, (i, P0)
+        b = bbox(P0)
+        horizontal = (b[2] - b[0]) >= (b[3] - b[1])
+        if len(P0) != 4 or P0 != rect_poly(b):
+            ops.append(('D', i)); del shapes[i]
+            return 'delete', None
+        L = (b[2] - b[0]) if horizontal else (b[3] - b[1])
+        if how == 'shrink':
+            cut = rng.range(max(2, L // 3), max(2, (2 * L) // 3))          # the wall keeps `cut` of its length at one end: the rest is an opening
+            if rng.chance(1, 2):
+                nb = (b[0], b[1], b[0] + cut, b[3]) if horizontal else (b[0], b[1], b[2], b[1] + cut)
+            else:
+                nb = (b[2] - cut, b[1], b[2], b[3]) if horizontal else (b[0], b[3] - cut, b[2], b[3])
+            ops.append(('T', i, rect_poly(nb))); shapes[i] = rect_poly(nb)
+            return how, (i, P0)
+        sl = rng.range(max(3, L // 2), L) * rng.choice([-1, 1])
+        dx, dy = (sl, 0) if horizontal else (0, sl)
+        ops.append(('M', i, dx, dy)); shapes[i] = [(x + dx, y + dy) for x, y in P0]
+        return how, (i, P0)
+    wname = rng.choice(sorted(walls))
+    how, undo = open_wall(wname)
+    tags.append('open_' + how)
+    ops.append(('P',))
+    if undo is not None and rng.chance(1, 4):
+        # close it again, then open another wall
+        i, P0 = undo
+        ops.append(('T', i, P0)); shapes[i] = P0; ops.append(('P',))
+        others = [w_ for w_ in sorted(walls) if w_ != wname]
+        how2, _ = open_wall(rng.choice(others))
+        tags.append('reclose_open_' + how2)
+        ops.append(('P',))
+    elif rng.chance(1, 4):
+        p = outside_point()
+        which = 0 if conns[100][0] not in inner else 1
+        if p is not None and conns[100][which] not in inner and p != conns[100][1 - which]:
+            ops.append(('E', 100, which, p)); ops.append(('P',)); tags.append('then_move_outer_end')
+    # final validity: endpoints never on / in a shape; at every dump the pocket is either closed or open by at least one unit (no zero-width seams)
+    shapes2, conns2 = {}, {}
+    region = (wb[0] - 2, wb[1] - 2, wb[2] - 6, wb[3] - 6)
+    inner_set = set(inner)
+    states = []
+    for o in ops:
+        if o[0] == 'P':
+            for (a_, b_) in conns2.values():
+                if a_ == b_ or any(inside_closed(Pg, a_) or inside_closed(Pg, b_) for Pg in shapes2.values()):
+                    return None, []
+                for q in (a_, b_):
+                    if q in inner_set:
+                        st = pocket_open_state(shapes2, q, region)
+                        if st == 'seam':
+                            return None, []
+                        states.append(st)
+        else:
+            shapes2, conns2 = hist_apply(shapes2, conns2, o)
+    if 'closed' in states and 'open' in states[states.index('closed'):]:
+        tags.append('closed_then_open')
+    return ops, tags
+
+
+def gen_zbend_scene(rng):
+    """-> (polys, conns) or None.  Orthogonal scenes for the unifying nudging pre-step: 2-3 connectors whose routes are forced into Z-bends (H-V-H
+    after the symmetry) with their middle segments in one corridor region.  All middle segments are bounded on one side by the same shape L; on
+    the other side connector 1 is bounded by a small extra shape N next to its end row (narrow channel [a, a+w]), the others only by the far
+    shape Rb (wide channel [a, b]); the spans of the middle segments overlap.  Coordinates are multiples of 5; 8 symmetries."""
+    g = 5
+    sym = rng.choice(SYMS); off = (g * rng.range(20, 40), g * rng.range(20, 40))
+    a = 0
+    w = g * rng.range(2, 8)                               # narrow channel width
+    nw = g * rng.range(2, 12)                             # N's width
+    b = a + w + nw + g * rng.range(4, 40)                 # Rb's near side
+    lw, rw = g * rng.range(6, 24), g * rng.range(6, 20)
+    n_y0 = 0; n_h = g * rng.range(4, 14)                  # N spans rows [0, n_h]
+    gap1 = g * rng.range(4, 30)
+    l_y0 = n_h + gap1; l_h = g * rng.range(6, 24)         # L below N (rows grow downwards in the template)
+    r_y1 = l_y0 + g * rng.range(-6, 6); r_h = g * rng.range(8, 24)
+    r_y0 = r_y1 - r_h
+    if r_y0 <= n_h - g * 2 and rng.chance(1, 2):
+        return None
+    Lb = (a - lw, l_y0, a, l_y0 + l_h)
+    Nb = (a + w, n_y0, a + w + nw, n_h)
+    Rb = (b, r_y0, b + rw, r_y1)
+    boxes = [Rb, Lb, Nb]
+    bottom = max(l_y0 + l_h, r_y1) + g * rng.range(6, 50)
+    conns = []
+    # connector 1: from under Rb (x within Rb's columns, row below everything) to just left of the channel at a row inside N's rows
+    s1 = (b + g * rng.range(1, max(1, rw // g - 1)), bottom)
+    d1 = (a - g * rng.range(1, 4), n_y0 + g * rng.range(1, max(1, n_h // g - 1)))
+    conns.append((s1, d1))
+    for k in range(rng.range(1, 2)):
+        sk = (b + g * rng.range(1, max(1, rw // g - 1)), bottom - g * rng.range(1, 12) * (k + 1))
+        lo, hi = n_h + g, l_y0 - g
+        if hi < lo:
+            return None
+        dk = (a - g * rng.range(1, 5), g * rng.range(lo // g, hi // g))
+        conns.append((sk, dk))
+    for _ in range(rng.range(0, 1)):
+        bx = (g * rng.range(-60, 80), g * rng.range(-40, 100))
+        boxes.append((bx[0], bx[1], bx[0] + g * rng.range(3, 12), bx[1] + g * rng.range(3, 12)))
+    # validity in template coordinates: boxes separated by >= 5, endpoints outside every closed box by >= 5, distinct
+    for i in range(len(boxes)):
+        for j in range(i + 1, len(boxes)):
+            if not box_sep(boxes[i], boxes[j], g):
+                return None
+    pts = [p for c in conns for p in c]
+    if len(set(pts)) != len(pts):
+        return None
+    for p in pts:
+        for bx in boxes:
+            if bx[0] - g < p[0] < bx[2] + g and bx[1] - g < p[1] < bx[3] + g:
+                return None
+    polys = [_xf_rect(sym, 1, off, bx) for bx in boxes]
+    cs = [(_xf(sym, 1, off, s), _xf(sym, 1, off, d)) for s, d in conns]
+    if rng.chance(1, 2):
+        cs = [(d, s) for s, d in cs]
+    return polys, cs
+
+
+def parse_hist_ops(strs):
+    """inverse of hist_op_str (script lines 'R ..' / 'X' / 'O ..' are skipped)"""
+    ops = []
+    for s in strs:
+        t = s.split()
+        if not t:
+            continue
+        if t[0] in ('A', 'T'):
+            k = int(t[2]); ops.append((t[0], int(t[1]), [(int(t[3 + 2 * j]), int(t[4 + 2 * j])) for j in range(k)]))
+        elif t[0] == 'M':
+            ops.append(('M', int(t[1]), int(t[2]), int(t[3])))
+        elif t[0] == 'D':
+            ops.append(('D', int(t[1])))
+        elif t[0] == 'C':
+            ops.append(('C', int(t[1]), (int(t[2]), int(t[3])), (int(t[4]), int(t[5]))))
+        elif t[0] == 'E':
+            ops.append(('E', int(t[1]), int(t[2]), (int(t[3]), int(t[4]))))
+        elif t[0] == 'P':
+            ops.append(('P',))
+    return ops
+
+
+def sweep_computed_edge_last(ops, trans, u, v, xid):
+    """Classifier predicate of the known finding sweep_border_chord, evaluated on a failing history: was the visibility edge u-v last
+    (re)computed by the rotational sweep (visibility.cpp vertexSweep) while shape `xid` was already active - rather than tested by
+    Router::newBlockingShape(xid) or re-checked by EdgeInf::checkVis / firstBlocker afterwards?
+    Order of events as in Router::processActions: per transaction all moved / deleted shapes leave (their blocked edges are re-checked with
+    firstBlocker), then moved shapes (by id), then added shapes (by id) are activated - newBlockingShape(shape) over the existing edges, then a
+    sweep from each of its vertices -, then connector end changes get their sweep when the connector is routed; with transactions off every op is
+    its own transaction.  The edge u-v is swept whenever a shape owning u or v as a vertex is activated or a connector end at u or v is set.
+    True iff the latest sweep of u-v is later than the last activation of xid and later than the last re-check (a shape whose old polygon the
+    segment passed through was moved or deleted)."""
+    u, v = (F(u[0]), F(u[1])), (F(v[0]), F(v[1]))
+    groups, cur = [], []
+    for o in ops:
+        if o[0] == 'P':
+            if cur:
+                groups.append(cur)
+            cur = []
+        elif trans:
+            cur.append(o)
+        else:
+            groups.append([o])
+    shapes, ends = {}, {}
+    act, endt = {}, {}              # id -> time of last activation ; (cid, which) -> time of last sweep from that end
+    recheck = (-1, 0, 0)
+    for g, grp in enumerate(groups):
+        before = dict(shapes)
+        added, moved, deleted, endch = set(), set(), set(), set()
+        for o in grp:
+            if o[0] == 'A':
+                shapes[o[1]] = list(o[2]); added.add(o[1])
+            elif o[0] == 'T':
+                shapes[o[1]] = list(o[2]); moved.add(o[1])
+            elif o[0] == 'M':
+                shapes[o[1]] = [(x + o[2], y + o[3]) for x, y in shapes[o[1]]]; moved.add(o[1])
+            elif o[0] == 'D':
+                shapes.pop(o[1], None); deleted.add(o[1])
+            elif o[0] == 'C':
+                ends[(o[1], 0)] = o[2]; ends[(o[1], 1)] = o[3]; endch.add((o[1], 0)); endch.add((o[1], 1))
+            elif o[0] == 'E':
+                ends[(o[1], o[2])] = o[3]; endch.add((o[1], o[2]))
+        moved -= added
+        for i in (moved | deleted):
+            if i != xid and i in before and through_interior(before[i], u, v):
+                recheck = max(recheck, (g, 0, i))
+        for i in moved:
+            if i in shapes:
+                act[i] = (g, 1, i)
+        for i in added:
+            if i in shapes:
+                act[i] = (g, 2, i)
+        for k in endch:
+            endt[k] = (g, 3, k[0])
+    if xid not in act:
+        return False
+    sweeps = [act[i] for i, P in shapes.items() if i != xid and i in act and any((F(p[0]), F(p[1])) in (u, v) for p in P)]
+    sweeps += [endt[k] for k, p in ends.items() if (F(p[0]), F(p[1])) in (u, v)]
+    if not sweeps:
+        return False
+    return max(sweeps) > act[xid] and max(sweeps) > recheck
+
+
+def classify_border_chords(drv, polys, ids, route, offs, ops, trans):
+    """-> 'degenerate_chord' (F-b: every offending segment is a degenerate chord that the code's own per-shape test does not block),
+    'sweep_border_chord' (every offending segment is a degenerate chord; those the per-shape test DOES block - two end-point touches - were
+    last computed by the rotational sweep with the shape already active) or None (not a known finding).  polys[k] has shape id ids[k]."""
+    if not offs or offs == [(-1, -1, 0)] or not all(o[2] == 1 for o in offs):
+        return None
+    qs = []
+    for (seg, shp, dg) in offs:
+        if seg + 1 >= len(route) or shp >= len(polys):
+            return None
+        qs.append('BLK %s %s %s' % (tok_poly(polys[shp]), tok_pt(route[seg]), tok_pt(route[seg + 1])))
+    ans = [a.split() for a in run_driver(drv, qs)]
+    if all(a[0] == '0' for a in ans):
+        return 'degenerate_chord'
+    for (seg, shp, dg), a in zip(offs, ans):
+        if a[0] == '1' and not sweep_computed_edge_last(ops, trans, route[seg], route[seg + 1], ids[shp]):
+            return None
+    return 'sweep_border_chord'
